@@ -1,6 +1,7 @@
 import L21.Props.C04
 import L21.Props.C04D
 import L21.Props.C04L
+import L21.Props.C04Order
 import L21.Props.C05RT
 import L21.Props.C11
 #print axioms L21.LefEnum.c04_enum_strings_canonical
@@ -17,3 +18,9 @@ import L21.Props.C11
 #print axioms L21.Lef.c04_layout_tokens
 #print axioms L21.Lef.c04_layout_independent
 #print axioms L21.Lef.c04_parse_layout
+#print axioms L21.Lef.c04_pin_any_order
+#print axioms L21.Lef.c04_macro_any_order
+#print axioms L21.Lef.c04_pin_reads_back
+#print axioms L21.Lef.c04_macro_reads_back
+#print axioms L21.Lef.c04_macro_order_free
+#print axioms L21.Lef.rendersM_canon
